@@ -178,6 +178,7 @@ type hreq struct {
 	panicked any
 	writes   int
 	reported bool
+	panicReported bool
 	req      *http.Request
 }
 
